@@ -718,7 +718,21 @@ def _closest_point(ctx, p):
             s[rng.integers(dim)] = 1.0
         steps = steps * s
     origin = rng.normal(size=dim) * 2
-    g = _lib_call(ctx, lambda: UniformGrid(origin, np.diag(steps), shape))
+    form = int(p.get("k", 0)) % 4
+    if form == 3:
+        # integer-valued grid handed over in INTEGER-dtype arrays (np.array([0, 0, 0]), integer axes): a lattice
+        steps = np.sign(steps) * rng.integers(1, 4, dim)
+        origin_arg, axes_arg = np.rint(origin * 3).astype(np.int64), np.diag(steps).astype(np.int64 if rng.random() < 0.5 else np.int32)
+        origin = origin_arg.astype(float)
+        ctx.count("closest-point:integer-dtype-origin-and-axes")
+    elif form == 2:
+        # integer-dtype origin with float axes (origin given as np.array([0, 0, 0]))
+        origin_arg, axes_arg = np.rint(origin * 3).astype(np.int64), np.diag(steps)
+        origin = origin_arg.astype(float)
+        ctx.count("closest-point:integer-dtype-origin")
+    else:
+        origin_arg, axes_arg = origin, np.diag(steps)
+    g = _lib_call(ctx, lambda: UniformGrid(origin_arg, axes_arg, shape))
     if g is None:
         return
     subj = f"UniformGrid.closest_point:{dim}D"
@@ -938,6 +952,20 @@ def _interp_linear(ctx, p):
             _register(values2, c=c2, h=h, fmax=float(np.abs(values2).max()) or 1.0, tag=":same-grid-new-data")
             g.interpolate(q, values2, method="linear")
             ctx.count("interpolate:same-grid-object-new-data")
+        # ... and after its points were REASSIGNED (rigid translation through the public setter): the axis nodes and the
+        # interpolant must follow the current points
+        shift = rng.normal(size=3) * 2.0
+        g.points = np.asarray(g.points, dtype=float) + shift
+        axes_now = g.get_points_along_axes()
+        want_axes = [np.asarray(nd, dtype=float) + shift[i] for i, nd in enumerate(nodes)]
+        ok = len(axes_now) == 3 and all(np.allclose(np.asarray(a_, dtype=float), w_, rtol=0, atol=1e-12) for a_, w_ in zip(axes_now, want_axes))
+        ctx.check("points-along-axes", f"{type(g).__name__}:after-points-reassigned", ok, sig="axis-nodes-not-those-of-current-points")
+        c3 = np.zeros((4, 4, 4))
+        c3[:2, :2, :2] = rng.normal(size=(2, 2, 2))
+        values3 = ref.poly3(c3, g.points)
+        _register(values3, c=c3, h=h, fmax=float(np.abs(values3).max()) or 1.0, tag=":after-points-reassigned")
+        g.interpolate(q + shift, values3, method="linear")
+        ctx.count("interpolate:after-points-reassigned")
     _TRUTH.clear()
     # recorded, not decided: 'linear' with use_log=True hands back the interpolated logarithm
     if not _SEEN.get("linear-log"):
